@@ -8,6 +8,7 @@ pub(crate) mod ghost_chan;
 pub(crate) mod ghost_fs;
 pub(crate) mod stubs;
 pub(crate) mod common;
+pub(crate) mod model;
 
 /// `#[kani::proof]` + the standard environment stubs (DESIGN.md §3.3).
 /// `crc = real` keeps crc32fast's table code; `crc = off` makes every checksum
